@@ -1494,6 +1494,9 @@ class Stream(AbstractStream):
         elif N_streams == 1:
             if energy_balance:
                 self.copy_like(streams[0])
+                if Q:
+                    if vle: self.vle(H=self.H + Q, P=self.P)
+                    else: self.H += Q
             elif isinstance(self._imol, MaterialIndexer):
                 self._imol.mix_from([streams[0]._imol])
             else:
